@@ -485,7 +485,7 @@ def run(ctx):
     nex = len(traces)
     ctx.extra["exhaustive_short_histories"] = nex
     # ... and seeded random histories
-    for _ in range(ctx.pick(1000, 25000)):
+    for _ in range(ctx.pick(1000, 5000)):
         traces.append(random_history(ctx.rng, {"P": ctx.rng.choice([1, 2, 3, 5])}, ctx.rng.randint(5, 40)))
     ctx.note_traces(traces)
     ctx.extra["events"] = sum(len(t["ev"]) for t in traces)
@@ -495,7 +495,7 @@ def run(ctx):
     for x in rej:
         t = traces[x.idx]
         fp = fingerprint(t, x.reached)
-        if fp in seen and len(seen) >= 10:
+        if fp not in seen and len(seen) >= 6:      # at most six distinct alarms are reported
             continue
         seen.add(fp)
         e = t["ev"][x.reached] if x.reached < len(t["ev"]) else None
